@@ -161,6 +161,8 @@ def run(ctx):
             else:
                 picks.append(rnd.choice(rest))
         strats = STRATS.get(row["hint"], [])
+        if not strats:
+            continue
         if ctx.tier == "quick" and site not in bad_sites:
             # quick: every site gets the field-wrap alternative and one seeded other alternative
             strats = [strats[0]] + ([rnd.choice(strats[1:])] if len(strats) > 1 else [])
